@@ -224,6 +224,32 @@ theorem procedure_polls_back_off (n : Nat) :
     sleepsOf (lookupLoop Backoff.nextBackoff (sched 0) n) = schedFrom 0 n :=
   ⟨by decide, by decide, by decide, lookupLoop_sleeps n 0⟩
 
+/-- What a final answer means for the caller. -/
+def ProcAns.result : ProcAns → ProcRes
+  | .finished => .ok | .exception => .procException | .notFound => .notFound | .running => .exhausted
+
+theorem procLoop_running_prefix (n j : Nat) (a : ProcAns) (rest : List ProcAns) (ha : a ≠ .running) :
+    procLoop Backoff.nextBackoff (sched j) (List.replicate n .running ++ a :: rest)
+      = (a.result, n + 1, schedFrom j n) := by
+  induction n generalizing j with
+  | zero => cases a <;> simp_all [procLoop, ProcAns.result, schedFrom]
+  | succ n ih =>
+    have := ih (j + 1)
+    simp only [sched] at this
+    simp [List.replicate_succ, procLoop, sleepAndIncrease_pos _ _ (sched_pos j), this, schedFrom]
+
+/-- An admin call whose procedure is reported RUNNING `n` times and then gets a final answer sends
+exactly `n + 1` polls, waits the first `n` entries of the schedule between them, and ends with what
+that first final answer means — whatever the master would have answered afterwards. -/
+theorem procedure_result_is_first_final_answer (n : Nat) (a : ProcAns) (rest : List ProcAns)
+    (ha : a ≠ .running) :
+    procLoop Backoff.nextBackoff (sched 0) (List.replicate n .running ++ a :: rest)
+      = (a.result, n + 1, schedFrom 0 n) := procLoop_running_prefix n 0 a rest ha
+
+/-- non-vacuity: three RUNNING answers, then an exception; the answer after it is never asked for -/
+example : procLoop Backoff.nextBackoff (sched 0) [.running, .running, .running, .exception, .finished]
+    = (.procException, 4, [16 * msec, 32 * msec, 64 * msec]) := by decide
+
 theorem establishLoop_sleeps_pos (n j : Nat) :
     sleepsOf (establishLoop Backoff.nextBackoff (sched j) n) = schedFrom j (n + 1) := by
   induction n generalizing j with
